@@ -151,6 +151,7 @@ rej:
 	polyVecLAdd(&z, &z, &y)
 	polyVecLReduce(&z)
 	if polyVecLChkNorm(&z, GAMMA1-BETA) != 0 {
+		verifSignEvent(1, nonce, &z, &w0, &h, 0)
 		goto rej
 	}
 
@@ -161,6 +162,7 @@ rej:
 	polyVecKSub(&w0, &w0, &h)
 	polyVecKReduce(&w0)
 	if polyVecKChkNorm(&w0, GAMMA2-BETA) != 0 {
+		verifSignEvent(2, nonce, &z, &w0, &h, 0)
 		goto rej
 	}
 
@@ -169,14 +171,17 @@ rej:
 	polyVecKInvNTTToMont(&h)
 	polyVecKReduce(&h)
 	if polyVecKChkNorm(&h, GAMMA2) != 0 {
+		verifSignEvent(3, nonce, &z, &w0, &h, 0)
 		goto rej
 	}
 
 	polyVecKAdd(&w0, &w0, &h)
 	n := polyVecKMakeHint(&h, &w0, &w1)
 	if n > OMEGA {
+		verifSignEvent(4, nonce, &z, &w0, &h, n)
 		goto rej
 	}
+	verifSignEvent(0, nonce, &z, &w0, &h, n)
 
 	if err := packSig(sig[:CryptoBytes], sig[:SeedBytes], &z, &h); err != nil {
 		return err
